@@ -23,6 +23,7 @@ EXPLANATION = (
     "queues and observable containers, and a must-pass-through rule for the sort of directory expansions."
 )
 NOT_DECIDED = "independence from the suspension points of arbitrary executors; equality of whole graphs across runs"
+CONFIGS = ["default", "nofastcheck"]  # thorough tier also analyses the build without fast_check / symbols
 ASSUMPTIONS = [
     "BTreeMap/BTreeSet/IndexMap/IndexSet/Vec iterate deterministically; std HashMap/HashSet with RandomState do not",
     "foreign functions that receive a hash collection by reference are not assumed to iterate it",
@@ -211,7 +212,7 @@ def run(F, R, tier):
                     for a in n["args"]:
                         if HASH_COLL.match(tys(F, a)) and peel(a).get("k") != "MethodCall":
                             sites.append(("arg", a, n))
-    R.floor("C04-a hash iteration sites", len(sites), 11)
+    R.floor("C04-a hash iteration sites", len(sites), 11 if getattr(R, "config", "default") == "default" else 7)
     n_auto = 0
     for kind, expr, node in sites:
         fnp = node["_top"]["path"]
